@@ -55,6 +55,8 @@ def main(argv):
 def decide(spec, tier, seed):
     pid = spec.pid
     t0 = time.time()
+    # the oracle walks every n-th day block a second time in descending order (history dependence)
+    os.environ.setdefault("ORACLE_DESC_EVERY", "8" if tier == "quick" else "2")
     workdir = os.path.join(core.BUILD, "run", "%s-%d" % (pid, os.getpid()))
     os.makedirs(workdir, exist_ok=True)
     broken = []          # obligations / correspondences that no longer check
